@@ -324,8 +324,8 @@ pub fn run_c11(args: &Args) -> i32 {
             .collect();
         if std::env::var("VCHECK_TRACING").as_deref() == Ok("trace") {
             // every node formats its arguments at this level (the CLI's -vvv): a smaller sweep
-            positions = positions.into_iter().step_by(48).chain(keep).collect();
-            cap = 90;
+            positions = positions.into_iter().step_by(120).chain(keep).collect();
+            cap = 60;
         } else {
             positions = positions.into_iter().step_by(6).chain(keep).collect();
             cap = 250;
@@ -495,7 +495,7 @@ const HISTORY_ROOTS: &[(&str, &[&str])] = &[
 ];
 
 fn c11_with_history(tier: Tier, report: &Report) -> u64 {
-    let cap = tier.pick(1_500u64, 12_000);
+    let cap = tier.pick(600u64, 12_000);
     let res: Vec<(u64, Vec<(u64, Vec<Divergence>)>)> = HISTORY_ROOTS
         .par_iter()
         .map(|(start, moves)| {
